@@ -97,7 +97,9 @@ RollChars(c, O) ==
 RollRel(c, O) == RollShape(c, O) /\ RollChars(c, O)
 
 \* a candidate: [scr, kind, base, depth, exact]
-Matches(c, O) == IF c.kind = "rollup" /\ ~c.exact THEN RollRel(c, O) ELSE ScreenEq(c.scr, O)
+RollExact(c, O) == /\ Len(c.scr) = Len(O) /\ Len(O) <= c.depth
+                   /\ \A j \in 1..Len(O) : (c.base = 15 => c.scr[j].row = O[j][1]) /\ CellsEq(c.scr[j].cells, O[j][2])
+Matches(c, O) == IF c.kind = "rollup" THEN (IF c.exact THEN RollExact(c, O) ELSE RollRel(c, O)) ELSE ScreenEq(c.scr, O)
 
 ClauseFor(cands, O, special) ==
   IF special # "" THEN special
